@@ -6,7 +6,7 @@ S="$(cd "$1" && pwd)"; shift
 D=$(mktemp -d /dev/shm/pvseed-XXXXXX)
 trap 'rm -rf "$D"' EXIT
 git -C /repo archive HEAD | tar -x -C "$D"
-sed "s#/tmp/wt-C[0-9]*#$D#g" "$S/demo.py" > "$D/demo_seed.py"
+sed "s#/tmp/w[t0-9]*-C[0-9]*#$D#g" "$S/demo.py" > "$D/demo_seed.py"
 (cd "$D" && timeout 600 /venv/bin/python demo_seed.py >"$D/.demo0.log" 2>&1); R0=$?
 (cd "$D" && patch -p1 -s < "$S/patch.diff") || { echo "PATCH DOES NOT APPLY"; exit 9; }
 (cd "$D" && timeout 600 /venv/bin/python demo_seed.py >"$D/.demo1.log" 2>&1); R1=$?
